@@ -58,7 +58,9 @@ DatumFails(e) ==
       P   == Parse(e.bytes, 1, e.s, env)
       g   == e.gen
   IN
-     If(~g.ok \/ P.ok \/ P.why = "toolarge", "C06:accepted-invalid-" \o P.why)
+     \* (a uuid text in another notation than the canonical one - no hyphens, braces, urn: - read as the uuid it
+     \*  denotes is leniency on input, not an invented value: drift, as long as the result conforms)
+     If(~g.ok \/ P.ok \/ P.why = "toolarge" \/ (P.why = "uuidtext" /\ Conforms(g.v, e.s, env)), "C06:accepted-invalid-" \o P.why)
      \cup If(~(g.ok /\ P.ok) \/ (VEq(g.v, P.v) /\ g.consumed = P.pos - 1), "C06:decoded-value-differs")
      \cup If(~g.ok \/ Conforms(g.v, e.s, env), "C06:decoded-nonconforming")
      \cup If(~g.ok \/ g.valid, "C06:validate-rejects-decoded")
@@ -107,7 +109,10 @@ Judge(e) ==
       drift2 == IF e.entry = "datum" /\ e.outcome \in {"ok", "err"} /\ ~e.heavy /\ e.gen.ok
                    /\ \E i \in 1..Len(e.ser.ig) : ~e.ser.ig[i].ok /\ ~e.ser.ig[i].panic /\ e.ser.ig[i].ekind # "alloc"
                 THEN {"deserializer-cannot-ignore-this-shape"} ELSE {}
-  IN [fail |-> fail, known |-> {}, drift |-> drift \cup drift2]
+      drift3 == IF e.entry = "datum" /\ e.outcome = "ok" /\ ~e.heavy
+                   /\ LET P == Parse(e.bytes, 1, e.s, Defs(e.s)) IN ~P.ok /\ P.why = "uuidtext" /\ Conforms(e.gen.v, e.s, Defs(e.s))
+                THEN {"lenient-uuid-text-accepted"} ELSE {}
+  IN [fail |-> fail, known |-> {}, drift |-> drift \cup drift2 \cup drift3]
 
 Init == l = 1
 Next == /\ l <= Len(Rec)
